@@ -234,6 +234,10 @@ def build(case, info=None):
         else:
             wn.add_pattern(name, Pattern(name, [float(v) for v in p['m']], time_options=wn.options.time, wrap=False))
             feats.add('pattern.wrap')
+        if p.get('via_setter'):
+            # the multipliers are assigned afterwards through the setter, whole numbers as Python ints
+            wn.get_pattern(name).multipliers = [int(v) if float(v).is_integer() else float(v) for v in p['m']]
+            feats.add('pattern.multipliers_setter')
         feats.add('pattern')
     curves_by_kind = {k: [] for k in CURVE_KINDS}
     for name, c in zip(nm['curves'], case['curves']):
@@ -965,7 +969,7 @@ def enumerate_cases(tier):
         ('links', 4)
     singles = [
         _set(('name',), 'Model one'), _set(('style',), 1), _set(('style',), 2),
-        _set(('pats', 0, 'wrap'), False),
+        _set(('pats', 0, 'wrap'), False), _set(('pats', 1), {'m': [1.0, 0.0, 2.0], 'wrap': True, 'via_setter': True}),
         _set(J + ('dem',), []), _set(J + ('dem',), [[0.01, 0, 'dom'], [0.002, 1, None], [0.0, None, 'ind']]),
         _set(J + ('dem',), [[0.01, None, 'single_cat']]), _set(J + ('dem',), [[0.0, 1, None]]),
         _set(J + ('emit',), 0.003), _set(J + ('iq',), 0.5), _set(J + ('pmin',), 3.0), _set(J + ('preq',), 21.5),
@@ -1090,6 +1094,11 @@ def strategy(draw, tier='quick'):
     case['pats'] = draw(st.lists(st.fixed_dictionaries({
         'm': st.lists(_f(0.0, 10.0, [0.0, 1.0, 0.5, 2.0, 1e-3]), min_size=0, max_size=5),
         'wrap': st.just(True) if 'pattern.wrap' not in mask else st.booleans()}), min_size=0, max_size=3))
+    for p in case['pats']:
+        if draw(st.integers(0, 4)) == 0:
+            p['via_setter'] = True
+            if draw(st.booleans()):
+                p['m'] = [float(round(v)) for v in p['m']]
     curves = []
     for k in draw(st.lists(st.sampled_from(CURVE_KINDS), min_size=0, max_size=5)):
         n = draw(st.integers(1, 4))
